@@ -49,6 +49,16 @@ def families(r):
         ("nested-loops", f"let c = 0 for a in [1, 2, 3, 4, 5, 6, 7, 8, 9, 10] {{ for b in [1, 2, 3, 4, 5, 6, 7, 8, 9, 10] {{ let i = 0 while i < {r.randint(10, 400)} {{ i += 1 c += 1 }} }} }} c", None),
         (f"recursion-depth-{d}", f"fun deep(n) {{ if n == 0 {{ 0 }} else {{ 1 + deep(n - 1) }} }} deep({r.choice([10, 900, 998, 999, 1000, 1001, 1500])})", None),
     ]
+    # Source text that nests deeply: a value-nesting LITERAL, parentheses, closures, else-if chains,
+    # operator chains (the nesting is in the program text, not built up at run time)
+    dn = r.choice([300, 1500, 4000])
+    fams += [
+        ("deep-source-list-literal", "let v = " + "[" * dn + "]" * dn + " 1", None),
+        ("deep-source-parens", "let v = " + "(" * dn + "1" + ")" * dn + " v", None),
+        ("deep-source-closures", "let f = " + "fun() { " * dn + "1" + " }" * dn + " 1", None),
+        ("deep-source-else-if", "let x = 5 if x == 0 { 0 }" + "".join(f" else if x == {k} {{ {k} }}" for k in range(10, 10 + dn * 3)) + " else { 9 }", None),
+        ("deep-source-operator-chain", "let s = 0" + " + 1" * (dn * 3) + " s", None),
+    ]
     # Never-ending loops whose bodies come from the general program generator: arbitrary
     # control flow (continue / break out of the inner loop, nested loops later in the body,
     # calls, closures, matches) must still be cut off by the step budget.
@@ -82,7 +92,7 @@ class C25:
     counts = {"quick": 160, "thorough": 6000}
     nproc = 8  # children may use up to the address-space cap each
     wall_caps = {"quick": 170, "thorough": 1500}
-    rule = ("case = one generated non-terminating or resource-hungry program (25 families: infinite loops with and without "
+    rule = ("case = one generated non-terminating or resource-hungry program (33 families: infinite loops with and without "
             "output, self / mutual / closure / method recursion, value nesting by one level per iteration followed by "
             "print / compare / drop, closure chains, blocking built-ins, boundary recursion depths; seeded sizes), run by "
             "the REAL binary as `playground-run`, or as 1..4 test bodies under `sandboxed-test`, with stdin loaded / "
@@ -311,7 +321,8 @@ class C25:
         fams = sorted(set(p[0].split("-depth-")[0] for p in case["progs"]))
         if case["mode"] == "playground-run":
             return f"C25:{cls}:{fams[0]}"
-        nest = [f for f in fams if f.startswith(("nest-", "deep-closure"))]
+        # (a file whose source nests too deeply dies while it is parsed, whatever else it contains)
+        nest = [f for f in fams if f.startswith("deep-source")] + [f for f in fams if f.startswith(("nest-", "deep-closure"))]
         return f"C25:{cls}:tests:" + ("+".join(nest) if nest else "no-nesting")
 
     def replay(self, ctx, rp):
